@@ -17,8 +17,12 @@ PROP = "C19"
 CFG_HOST = "cluster.abcxyz.cfg.use1.cache.amazonaws.com"
 
 
+SHARED_ADDR = False     # nodes 2k-1 and 2k then live on one host (same fqdn and ip), on different ports
+
+
 def node(i):
-    return {"fqdn": "node%d.abcxyz.use1.cache.amazonaws.com" % i, "ip": "10.0.1.%d" % i, "port": 11211 + (i % 2)}
+    a = (i + 1) // 2 if SHARED_ADDR else i
+    return {"fqdn": "node%d.abcxyz.use1.cache.amazonaws.com" % a, "ip": "10.0.1.%d" % a, "port": 11211 + (i % 2)}
 
 
 def hostport(name):
@@ -236,7 +240,12 @@ CHECK_DEADLOCK FALSE
         if i % 10 == 0:
             # a plain memcached answers an unknown command with ERROR and keeps the connection open
             hist.insert(rnd.randrange(1, len(hist) + 1), ["error-silent"])
-        traces.append(replay(hist, rnd.random() < 0.5, 6, i, pooling=False))
+        global SHARED_ADDR
+        SHARED_ADDR = i % 3 == 2
+        try:
+            traces.append(replay(hist, rnd.random() < 0.5, 6, i, pooling=False))
+        finally:
+            SHARED_ADDR = False
     acc, rej, st, _ = tlc.validate_traces("DiscoveryTrace", [{"h": t["h"], "ev": t["ev"]} for t in traces], chunk=3000)
     rep.set("traces_validated_against_impl", len(traces))
     rep.set("trace_states", st)
